@@ -2,6 +2,7 @@ package gen
 
 import (
 	"fmt"
+	"regexp"
 	"strings"
 
 	"pgregory.net/rapid"
@@ -89,6 +90,50 @@ func (g *cgen) op(independent bool, id string, keyBase int) string {
 // function entry0.
 func GenerateConcurrent(t *rapid.T) *ConcProgram {
 	g := &cgen{t: t, feats: map[string]bool{}}
+	p := g.generate()
+	return g.placeLock(p)
+}
+
+var muWord = regexp.MustCompile(`\bmu\b`)
+
+// placeLock moves the program's mutex from a local variable into a struct field — of a struct behind
+// a pointer, of a var-declared struct value, or two selectors deep inside a := struct value — so
+// that locks are also reached through field paths (seeded change C03-5). Everything else, including
+// sync.NewCond(mu), follows the same path.
+func (g *cgen) placeLock(p *ConcProgram) *ConcProgram {
+	const decl = "\tmu := new(sync.Mutex)\n"
+	if !strings.Contains(p.Src, decl) || strings.Count(p.Src, decl) != 1 {
+		return p
+	}
+	kind := g.pick("lockplace", 5)
+	if kind <= 1 {
+		return p
+	}
+	var setup, path string
+	switch kind {
+	case 2:
+		setup, path = "\tlkh := &LkHolder{mu: new(sync.Mutex)}\n", "lkh.mu"
+		p.Features = append(p.Features, "lock-in-field-of-pointer")
+	case 3:
+		setup, path = "\tvar lkv LkHolder = LkHolder{mu: new(sync.Mutex)}\n", "lkv.mu"
+		p.Features = append(p.Features, "lock-in-field-of-var-struct")
+	default:
+		setup, path = "\tlko := LkOuter{in: LkHolder{mu: new(sync.Mutex)}}\n", "lko.in.mu"
+		p.Features = append(p.Features, "lock-in-nested-field-of-value-struct")
+	}
+	src := strings.Replace(p.Src, decl, "\x00", 1)
+	src = muWord.ReplaceAllString(src, path)
+	src = strings.Replace(src, "\x00", setup, 1)
+	types := "type LkHolder struct {\n\tmu *sync.Mutex\n\tn  uint64\n}\n\ntype LkOuter struct {\n\tin LkHolder\n}\n\n"
+	i := strings.Index(src, ")\n\n")
+	if i < 0 {
+		return p
+	}
+	p.Src = src[:i+3] + types + src[i+3:]
+	return p
+}
+
+func (g *cgen) generate() *ConcProgram {
 	if g.chance("loopvarshape", 20) {
 		return g.loopVarCapture()
 	}
